@@ -475,6 +475,15 @@ class FMsg(Family):
                 ones.append(dict(k="dec", entry="plain", inp=encode_value(m, fill_variants(m, g["w"])[1])))
         if not wide: ones = rng.sample(ones, min(len(ones), 250 * scale))
         extra += ones
+        # ... and every optional element with a two-octet length field at 1 025 and 4 097 octets, contents of its own: a
+        # reader-side shortcut for large values (a view instead of a copy) only exists beyond some size
+        from codec_common import plain_minimal, TBL
+        for m in sorted(by):
+            for k, s_ in enumerate(TBL[m]["slots"]):
+                if s_["mand"] or s_["lsz"] != 2: continue
+                for n in (1025, 4097) + ((16385,) if wide else ()):
+                    if s_["min"] <= n <= s_["max"]:
+                        extra.append(dict(k="dec", entry="plain", inp=plain_minimal(m) + [s_["iei"], n >> 8, n & 255] + [(0x5B + 3 * k + i * 7) % 256 for i in range(n)]))
         rng.shuffle(extra)
         cases += extra
         return [("shared-%d" % k, cases[k:k + 12]) for k in range(0, len(cases), 12)]
